@@ -42,6 +42,9 @@ PATH_METHODS = {
     'write_bytes': 'WRITE_PATH', 'write_text': 'WRITE_PATH', 'read_bytes': 'READ_PATH', 'read_text': 'READ_PATH',
     'iterdir': 'LISTDIR', 'glob': 'LISTDIR', 'hardlink_to': 'LINK', 'symlink_to': 'LINK', 'link_to': 'LINK',
 }
+# path-mutating pathlib method names with their plausible argument counts (min, max) -- used for receivers of unknown kind
+DESTRUCTIVE_PATH_METHODS = {'unlink': (0, 1), 'rmdir': (0, 0), 'rename': (1, 1), 'replace': (1, 1), 'write_bytes': (1, 1), 'write_text': (1, 4), 'touch': (0, 2),
+                            'hardlink_to': (1, 1), 'symlink_to': (1, 2), 'link_to': (1, 1)}
 HANDLE_METHODS = {
     'write': 'H_WRITE', 'writelines': 'H_WRITE', 'read': 'H_READ', 'readline': 'H_READ', 'readinto': 'H_READ',
     'seek': 'H_SEEK', 'tell': 'H_TELL', 'truncate': 'H_TRUNCATE', 'flush': 'H_FLUSH', 'close': 'H_CLOSE',
@@ -259,6 +262,19 @@ class Effects:
                     out.append(('SQLITE_BACKUP', r, K.kind(call.args[0], fr) if call.args else UNK))
                 elif r[0] == 'sqlite' and cal.name == 'close':
                     out.append(('SQLITE_CLOSE', r))
+            if not out and cal.name in DESTRUCTIVE_PATH_METHODS:
+                # a path-mutating method name on a receiver whose kind could not be inferred: closed world -> report it with an unknown
+                # path so that the ownership rules see it (str.replace(a, b) and dict/list methods are told apart by arity / known kinds)
+                nargs = len(call.args) + len(call.keywords)
+                lo, hi = DESTRUCTIVE_PATH_METHODS[cal.name]
+                known_other = all(r[0] in ('const', 'str', 'tuple', 'listof', 'coll', 'session', 'handle', 'fd', 'sqlite', 'memstream', 'instance', 'self', 'class', 'function', 'config', 'slice')
+                                  for r in alts(rk)) and bool(alts(rk))
+                if lo <= nargs <= hi and not known_other:
+                    eff = PATH_METHODS[cal.name]
+                    if eff in ('RENAME', 'REPLACE', 'LINK'):
+                        out.append((eff, UNK, K.kind(call.args[0], fr) if call.args else UNK))
+                    else:
+                        out.append((eff, UNK))
             return out
         return []
 
